@@ -53,6 +53,21 @@ func c17Oracle(sp *Spec, x *X, res *mcrt.Result) (string, string) {
 		if firstS >= 0 && lastP >= 0 && firstS < lastP {
 			return "successor-before-predecessor-left", fmt.Sprintf("bar %d displayed in frame %d while its predecessor %d is displayed until frame %d", s, firstS, p, lastP)
 		}
+		// a predecessor with a (well-formed) successor is drawn in its final state exactly twice, then it is gone
+		if x.EventCount("queue:late-successor") == 0 && x.EventCount("queue:two-successors") == 0 && sRet > 0 {
+			nterm, firstTerm := 0, -1
+			for i, f := range frames {
+				if r := f.Row(p); r != nil && r.Flags != "R" {
+					nterm++
+					if firstTerm < 0 {
+						firstTerm = i
+					}
+				}
+			}
+			if nterm > 2 && sRet < frames[firstTerm].Step {
+				return "predecessor-not-retired", fmt.Sprintf("bar %d (with bar %d queued behind it) is drawn in its final state in %d frames", p, s, nterm)
+			}
+		}
 		if sp.Refresh == "auto" && firstS < 0 {
 			return "successor-never-displayed", fmt.Sprintf("bar %d (queued after %d) does not appear in any of the %d frames", s, p, len(frames))
 		}
@@ -156,7 +171,7 @@ func init() {
 		Property: "C17",
 		Rule: "histories over {create P, create independent Z, create S after P (before P progresses / concurrently with P's progress / after P is gone), create a second successor of P, create T after S, each bar finishing (complete, abort, abort+drop, remove-on-complete, pop mode)} in auto and manual refresh; every schedule within the deviation bound. " +
 			"Whether a successor was created after its predecessor's final frame had been flushed, or as a second successor, is observed exactly at run time (a filler middleware runs inside the container goroutine while it executes the Add request) and partitions the executions. " +
-			"Oracle: no frame shows a bar with its predecessor; the successor is never shown before the predecessor's last frame; it takes the predecessor's index in the next frame; every queued bar appears in some frame (auto refresh); Wait and all calls return.",
+			"Oracle: no frame shows a bar with its predecessor; a predecessor is drawn in its final state at most twice; the successor is never shown before the predecessor's last frame; it takes the predecessor's index in the next frame; every queued bar appears in some frame (auto refresh); Wait and all calls return.",
 		Items: func(tier string) []Item {
 			var items []Item
 			bound := 1
